@@ -41,7 +41,7 @@ Inductive MutString (cfg : config) (f : list fnode) : srule -> str -> Prop :=
 Lemma printed_balanced f : Forall (wf_n Qword) f -> balanced (fprint f) = true.
 Proof.
   intros H. unfold balanced, fprint. rewrite <- (app_nil_r (join [ch_comma] (map fprint_n f))).
-  rewrite (balanced_join (wf_n Qword)); [reflexivity | intros n Hn; apply balanced_node; exact Hn | exact H].
+  rewrite (balanced_join (wf_n Qword)); [reflexivity | intros n Hn; eapply balanced_node; exact Hn | exact H].
 Qed.
 
 Lemma balanced_counts s : balanced s = true -> count ch_open s = count ch_close s.
